@@ -351,6 +351,7 @@ func c44GoMade(m *mon.M, ks *keyset) {
 			for k, v := range extra {
 				wit[k] = v
 			}
+			wit["secret_keyring"] = ks.witKeys()
 			m.Violation(key, wit)
 		}
 		checkSigned := func(rr readResult, who string) {
@@ -463,6 +464,7 @@ func c44GoMade(m *mon.M, ks *keyset) {
 		}
 
 		// ---- GnuPG as the independent reader
+		wit["secret_keyring"] = ks.witKeys()
 		var res gpgResult
 		switch op {
 		case "symmetric":
@@ -502,6 +504,16 @@ func c44GoMade(m *mon.M, ks *keyset) {
 		}
 		if op == "encrypt" || op == "encrypt+sign" || op == "symmetric" {
 			if res.rc != 0 || !res.has("DECRYPTION_OKAY") || !res.has("GOODMDC") {
+				tainted := false
+				for _, k := range recips {
+					tainted = tainted || k.tainted
+				}
+				if tainted && !res.has("DECRYPTION_OKAY") {
+					wit["effect"] = "GnuPG fails to decrypt a message encrypted to a key it imported from Entity.SerializePrivate with p > q"
+					m.Count("gpg_decrypt_failure_with_p_gt_q_key", 1)
+					m.Violation(rootCauseKeyExport, wit)
+					return
+				}
 				m.Violation(gk+":decryption", wit)
 				return
 			}
@@ -532,6 +544,10 @@ func c44GoMade(m *mon.M, ks *keyset) {
 		m.Count("gpg_accepts_go_made:"+op, 1)
 	})
 }
+
+// witKeys: the throw-away secret keyring (gpg --export-secret-keys) in hex, so
+// that a violation witness is self-contained.
+func (ks *keyset) witKeys() string { return mon.FullHex(ks.secret) }
 
 func (ks *keyset) pubOf(k *key) *openpgp.Entity {
 	for i, kk := range ks.keys {
@@ -656,10 +672,38 @@ func c44GPGMade(m *mon.M, ks *keyset) {
 			m.Sample(map[string]any{"stream": "gpg-made", "gpg_args": strings.Join(args, " "), "len": len(plain), "packets": tags})
 		}
 		ok := true
+		ownChecked := false
 		fail := func(key string, extra map[string]any) {
 			ok = false
 			for k, v := range extra {
 				wit[k] = v
+			}
+			wit["secret_keyring"] = ks.witKeys()
+			if strings.HasPrefix(key, "go-rejects-gpg-made") || strings.HasSuffix(key, ":SignatureError") {
+				// Is the message valid at all? gpg must accept what it has just made.
+				if ownChecked {
+					return
+				}
+				ownChecked = true
+				pwOwn := ""
+				if op == "symmetric" {
+					pwOwn = passphrase
+				}
+				if bad, own := ks.gpgRejectsOwn(msg, plain, strings.Contains(op, "detach"), pwOwn); bad {
+					wit["gpg_on_its_own_output"] = own.brief()
+					tainted := signer != nil && signer.tainted
+					for _, k := range recips {
+						tainted = tainted || k.tainted
+					}
+					if tainted {
+						wit["effect"] = "GnuPG produced a message it rejects itself, using a secret key imported from Entity.SerializePrivate with p > q"
+						m.Count("gpg_self_rejected_output_with_p_gt_q_key", 1)
+						m.Violation(rootCauseKeyExport, wit)
+					} else {
+						m.Inconclusive("gpg rejects its own output: " + strings.Join(args, " "))
+					}
+					return
+				}
 			}
 			m.Violation(key, wit)
 		}
@@ -880,6 +924,75 @@ func c44RMD160(m *mon.M, ks *keyset) {
 	})
 }
 
+// rootCauseKeyExport is the single key under which the p > q serialisation
+// defect and its observable consequences in GnuPG are reported.
+const rootCauseKeyExport = "rsa-secret-key-serialized-with-p-greater-than-q"
+
+// c44ExportedKeys: NewEntity -> SerializePrivate must be a well-formed RFC 4880
+// §5.5.3 RSA secret key (n = p*q, p < q, u = p^-1 mod q, checksum) — it is what
+// gpg --import receives. 3 session keys + 10 extra 1024-bit entities = 26 RSA
+// keys, so a defect that depends on the random order of the primes is seen in
+// every run.
+func c44ExportedKeys(m *mon.M, ks *keyset) {
+	m.Each("exported-keys", 13, func(i int64, r *rand.Rand) {
+		var tsk []byte
+		name := ""
+		if i < 3 {
+			k := ks.keys[i]
+			tsk, name = k.exported, k.name
+		} else {
+			cfg := &packet.Config{Time: fixedTime(tKeys), RSABits: 1024}
+			e, err := openpgp.NewEntity(fmt.Sprintf("extra%d", i), "", "extra@example.com", cfg)
+			if err != nil {
+				m.Violation("NewEntity-error", map[string]any{"err": err.Error()})
+				return
+			}
+			var b bytes.Buffer
+			if err := e.SerializePrivate(&b, cfg); err != nil {
+				m.Violation("SerializePrivate-error", map[string]any{"err": err.Error()})
+				return
+			}
+			tsk, name = b.Bytes(), e.PrimaryKey.KeyIdString()
+		}
+		m.Eval()
+		m.Count("exported_secret_keys_checked", 2)
+		issues := secretKeyIssues(tsk)
+		m.Distinct(fmt.Sprintf("exported-key issues=%d", len(issues)))
+		if len(issues) == 0 {
+			m.Count("exported_secret_keys_wellformed", 1)
+			return
+		}
+		onlyOrder := true
+		for _, s := range issues {
+			if !strings.Contains(s, "p >= q") {
+				onlyOrder = false
+			}
+		}
+		wit := map[string]any{"entity": name, "issues": issues, "transferable_secret_key": mon.FullHex(tsk), "effect": "RFC 4880 §5.5.3 check of Entity.SerializePrivate output"}
+		if onlyOrder {
+			m.Violation(rootCauseKeyExport, wit)
+		} else {
+			m.Violation("rsa-secret-key-serialized-malformed", wit)
+		}
+	})
+}
+
+// gpgRejectsOwn reports whether gpg fails to verify/decrypt a message it has
+// just produced itself (then the witness, not the package, is at fault — in
+// practice: a private-key operation with a key imported with p > q).
+func (ks *keyset) gpgRejectsOwn(msg, data []byte, detached bool, pw string) (bool, gpgResult) {
+	var res gpgResult
+	switch {
+	case detached:
+		res = ks.g.run(tGpgOps, nil, "--verify", ks.g.file("sig", msg), ks.g.file("dat", data))
+	case pw != "":
+		res = ks.g.run(tGpgOps, msg, "--passphrase", pw, "--decrypt")
+	default:
+		res = ks.g.run(tGpgOps, msg, "--decrypt")
+	}
+	return res.rc != 0 || res.has("BADSIG") || res.has("ERRSIG") || res.has("DECRYPTION_FAILED"), res
+}
+
 func TestC44(t *testing.T) {
 	m := mon.New(t, "C44")
 	defer m.Done()
@@ -893,6 +1006,7 @@ func TestC44(t *testing.T) {
 		return
 	}
 	defer ks.close()
+	c44ExportedKeys(m, ks)
 	c44GoMade(m, ks)
 	c44GPGMade(m, ks)
 	c44RMD160(m, ks)
